@@ -319,6 +319,7 @@ func runPublic(c *kit.Case) {
 		sum := 0    // lower bound of the queued bytes (payload only)
 		upper := 0  // upper bound (payload + envelope)
 		after := -1 // sends still to do after the limit was crossed
+		refused := false
 		for {
 			pad := r.Range(20, 500)
 			if slowBelow && upper+pad+160 > target {
@@ -328,7 +329,13 @@ func runPublic(c *kit.Case) {
 			n++
 			sum += rec.Size
 			upper += rec.Size + 96
-			if sum > cfg.QueueMax && rec.Err == "" && lbViolation.Load() == nil {
+			// Only the first crossing is decidable: once a Send was refused the close
+			// runs concurrently, and a Send whose Add slipped in just before the queue
+			// was discarded sees an empty queue and legitimately returns nil.
+			if rec.Err != "" {
+				refused = true
+			}
+			if sum > cfg.QueueMax && rec.Err == "" && !refused && lbViolation.Load() == nil {
 				s := fmt.Sprintf("Send of %s returned nil although at least %d payload bytes were pending in the queue of a blocked connection (ClientQueueMaxSize %d)", rec.ID, sum, cfg.QueueMax)
 				lbViolation.Store(&s)
 			}
@@ -1438,7 +1445,7 @@ func TestC12(t *testing.T) {
 		Rule: "every case runs in a virtual-time bubble; (index/16 + index%16) mod 8 selects the kind of case. " +
 			"0-4 public path: one Client on a recording transport, writer configured through ConnectReply{WriteDelay 0/0.5/1/5/20ms, MaxMessagesInFrame 0/-1/1/2/3/8/64, QueueInitialCap 0/1/2/4/16, QueueShrinkDelay default/immediate/3ms/50ms, WriteWithTimer, ReplyWithoutQueue}, JSON/Protobuf, bi/unidirectional; " +
 			"1-4 producer goroutines call Client.Send with unique ids (producer:seq, padded payloads 20-1500 bytes) in bursts and at PRNG-chosen virtual instants, an RPC command producer feeds the reply path; transport latency none / seeded Gosched yields inside Write / seeded virtual sleeps inside Write; " +
-			"scenarios: steady (all accepted messages must arrive), Client.Disconnect with a flushing code at a PRNG instant (everything accepted before the call must arrive before Transport.Close, close code preserved), close without flush, blocked transport + burst beyond ClientQueueMaxSize (Send must fail once the pending payload exceeds the limit, transport closed with 3008; a below-limit variant must stay open), failing write call n (closed with 3009, nothing recorded after). " +
+			"scenarios: steady (all accepted messages must arrive), Client.Disconnect with a flushing code at a PRNG instant (everything accepted before the call must arrive before Transport.Close, close code preserved), close without flush, blocked transport + burst beyond ClientQueueMaxSize (the first Send that takes the pending payload beyond the limit must fail, transport closed with 3008; a below-limit variant must stay open), failing write call n (closed with 3009, nothing recorded after). " +
 			"Always: every written message was queued, intact, at most once; a message whose enqueue returned before another's began is written first; no accepted message is skipped while a later one is written. " +
 			"5-6: internal/queue vs a slice model over 60-400 random Add/AddMany/Remove/RemoveMany/RemoveManyInto/RemoveManyIntoShrink/Wait/FinishCollect(0|delay)/sleep/Close/CloseRemaining operations with Len/Size/Cap/Closed compared after each. " +
 			"7: 3-6 concurrent producer/consumer histories per case on internal/queue checked with porcupine against a FIFO model. Non-trivial = a case that wrote frames / executed operations; signature = configuration x outcome x batch/backlog buckets.",
